@@ -194,7 +194,7 @@ func runConcCase(env *seqEnv, trNo int, cc *ConcCase) (*Trace, error) {
 	startCas := map[string]uint64{}
 	startRefs := map[string]*CasRef{}
 	for _, c := range collNames {
-		cas, err := env.colls[c].WriteCas("~start"+suffix, 0, 0, []byte(`{"start":1}`), 0)
+		cas, err := env.colls[c].WriteCas("~start"+strings.Replace(suffix, ".", "_", 1), 0, 0, []byte(`{"start":1}`), 0)
 		if err != nil {
 			return nil, fmt.Errorf("start marker: %w", err)
 		}
